@@ -378,7 +378,7 @@ CHECKS = {
         protos=[dict(name='ckpt', quick_seeds=1, thorough_seeds=2)],
         rule="(a) 1500 / 60000 directories of 0-8 checkpoint names (term-index, shuffled, some with indexes not monotone in the term) x keepNum 0-4 x latestSnapIndex: the real purgeOldCheckpoint on real directories vs the Lean model; "
              "(b) sessions on real stores (pebble, rocksdb): a log that is a fixed function of the index (KV, hash, list, zset, counter writes), backups at random instants (also twice at one index), restores of random earlier checkpoints followed by replay of the same log, repeated restores; "
-             "oracle: logical dump after restore = dump recorded at backup time, data files of EVERY checkpoint unchanged since written, restore succeeds, checkpoint still exists; (c) xfetch (6 / 60 runs): two replicas of one log with different checkpoint instants (half of them with 1 kB incompressible values and a forced flush: same-named sst files beyond 256 kB), the lagging one installs the other's checkpoint through RestoreFromRemoteBackup: data = the source replica's at that index, source checkpoint unchanged, both agree after 20 more entries; non-trivial = answered without error; distinct = distinct op lines",
+             "oracle: logical dump after restore = dump recorded at backup time, data files of EVERY checkpoint unchanged since written, restore succeeds, checkpoint still exists; a quarter of the sessions run with a 16 kB memtable and a burst of HyperLogLog writes (30 keys x 2000 elements) every 23rd log entry, so that restores close an engine whose write-back cache is dirty; (c) xfetch (6 / 60 runs): two replicas of one log with different checkpoint instants (half of them with 1 kB incompressible values and a forced flush: same-named sst files beyond 256 kB), the lagging one installs the other's checkpoint through RestoreFromRemoteBackup: data = the source replica's at that index, source checkpoint unchanged, both agree after 20 more entries; non-trivial = answered without error; distinct = distinct op lines",
         trusted=["engine checkpoint consistency (Pebble / RocksDB Checkpoint = a consistent snapshot) is the engines' contract",
                  "SameSstSound: restoreFromPath keeps a live .sst with the checkpoint's name when size and the last 256 KiB agree (explicit hypothesis of the file-level theorem as the `same` parameter; cannot be proved)",
                  "the file-level inode model (Z.Ckpt) is not differentially tied: only its consequences are observed by the oracle (checkpoint data files unchanged)"],
